@@ -184,13 +184,6 @@ def lz_member(raw_lzma1, plain, version=1, ds_byte=0x10):
     return hdr + raw_lzma1 + ftr
 
 
-def parse_lz(buf):
-    """Field map of concatenated .lz members (v0 needs the payload end: found from the v1 member size or, for v0,
-    by trying every possible end against the footer's CRC field position -- only v1 is self-delimiting, so for v0
-    the caller passes explicit member lengths through make_lz_file)."""
-    raise NotImplementedError
-
-
 def make_lz_file(name, members, trailing=b""):
     """members: list of (member bytes, plaintext, version)."""
     data, plain, units, segs = b"", b"", [], []
@@ -212,21 +205,34 @@ def make_lz_file(name, members, trailing=b""):
     return dict(name=name, fmt="lz", data=data, plain=plain, units=units, segs=segs, check=None, checks=[])
 
 
-def split_lz_members(buf):
-    """Split a file of v1 .lz members (self-delimiting through Member size) into (member, version) pieces + trailing."""
-    out, p = [], 0
-    # walk backwards is the lzip way; forwards needs the payload length, which v1 gives only at the end. Use the
-    # member size of the LAST member repeatedly from the end.
-    pieces, e = [], len(buf)
-    while e >= 26 and buf[:4] == b"LZIP":
-        ms = struct.unpack("<Q", buf[e - 8:e])[0]
-        if ms < 26 or ms > e or buf[e - ms:e - ms + 4] != b"LZIP" or buf[e - ms + 4] != 1:
-            break
-        pieces.append(buf[e - ms:e])
-        e -= ms
-    if e != 0:
-        return None
-    return list(reversed(pieces))
+def split_xz_streams(buf):
+    """Split a valid multi-Stream .xz file into [(stream_start, stream_end, padding_after)], walking backwards from the
+    end the way a random-access reader does (Stream Padding, Stream Footer, Backward Size, Index, sum of the Blocks)."""
+    out, e = [], len(buf)
+    while e > 0:
+        pe = e
+        while e >= 4 and buf[e - 4:e] == b"\0\0\0\0":
+            e -= 4
+        pad = pe - e
+        if e < 32 or buf[e - 2:e] != FOOTER_MAGIC:
+            raise ParseError("footer magic at %d" % e)
+        f = e - 12
+        bsize = (struct.unpack("<I", buf[f + 4:f + 8])[0] + 1) * 4
+        ix = f - bsize
+        if ix < 12 or buf[ix] != 0:
+            raise ParseError("index")
+        count, p = vli(buf, ix + 1, f)
+        total = 0
+        for _ in range(count):
+            u, p = vli(buf, p, f)
+            _, p = vli(buf, p, f)
+            total += (u + 3) // 4 * 4
+        s = ix - total - 12
+        if s < 0 or buf[s:s + 6] != HEADER_MAGIC:
+            raise ParseError("header magic at %d" % s)
+        out.append((s, e, pad))
+        e = s
+    return list(reversed(out))
 
 
 # ----------------------------------------------------------------------------------------------------------------
@@ -329,8 +335,8 @@ def concat_mode(frec, api, flags):
 def valid_cut_outputs(frec, api, flags):
     """For truncation: map cut length -> plaintext length that a correct decoder may report as complete.
     Non-concatenated: any cut at or after the end of the first unit gives unit 1.
-    Concatenated: a cut at the end of unit j plus a multiple of four bytes of the padding that follows (.xz), or
-    anywhere inside the first four bytes of what follows a member (.lz: trailing-data rule)."""
+    Concatenated: a cut at the end of unit j plus a multiple of four bytes of the padding that follows (.xz), exactly at
+    the end of a member or anywhere in the trailing data after the last member (.lz)."""
     units = frec["units"]
     n = len(frec["data"])
     ok = {}
@@ -349,11 +355,13 @@ def valid_cut_outputs(frec, api, flags):
         elif frec["fmt"] == "lz":
             # after a complete member, 0..3 further bytes of the next magic (or any trailing bytes) are "trailing data"
             if j + 1 < len(units):
-                for t in range(e, min(e + 4, nxt + 1)):
-                    ok[t] = acc
+                ok[e] = acc          # a cut 1-3 bytes into the next member is NOT legitimate (see KEY_LZ_TRAILING in c05.py)
             else:
                 for t in range(e, n + 1):
                     ok[t] = acc
+        else:
+            for t in range(e, n + 1):
+                ok[t] = acc
     return ok
 
 
